@@ -8,7 +8,13 @@ package main
 //     generalising it) rejects the statement; a statement that differs outside the generalised
 //     positions is not caught by the pattern;
 //   * what the allow rules in front of denyall do not admit is rejected;
-//   * unparsable statements are rejected unless ignore_parse_error is set.
+//   * unparsable statements are rejected unless ignore_parse_error is set;
+//   * table rules on FROM trees (scenario tableTrees + statement kind select-tree): nested / parenthesised
+//     joins and table lists on the left and on the right of a join, table sets that hold only some of the
+//     tree's tables: `deny tables` rejects iff one table of the tree is listed, `allow tables` + denyall admits
+//     iff all are; every evaluation of the table rule the chain makes is replayed on the model (the model
+//     evaluates the rule itself inside OpCensor, and on its own as OpTables) and judged from the generator's
+//     own list of the tables of the tree.
 
 import (
 	"fmt"
@@ -40,6 +46,8 @@ type c5stmt struct {
 	lits     []int    // token indices of literals
 	whereAt  int      // token index of WHERE (-1: none); the clause runs to the end
 	parsable bool
+	subOp    bool   // the FROM tree has a sub-select operand (never a listed table)
+	shape    string // FROM tree statements: the intended tree (c5tnode.shape)
 }
 
 func kw(s string) c5tok { return c5tok{s, true} }
@@ -149,6 +157,9 @@ func genStmt(r *vh.Rng, kind int) *c5stmt {
 		if r.Bool() {
 			s.where(r, c())
 		}
+	case 12:
+		top, name := c5tBuild(r, r.Intn(c5tShapes))
+		return c5tStmt(r, top, name)
 	default:
 		s.kind = "unparsable"
 		s.parsable = false
@@ -227,6 +238,284 @@ func (s *c5stmt) pattern(mask int, wholeWhere bool) string {
 	return strings.Join(parts, " ")
 }
 
+// ---------- FROM trees: nested / parenthesised joins and table lists ----------
+
+type c5tnode struct {
+	kind  int    // 0 table, 1 join, 2 parenthesised list, 3 sub-select operand
+	table string // kind 0: the table; kind 3: the table read inside the sub-select
+	alias string
+	join  string // kind 1: join keyword(s)
+	on    bool   // kind 1: has an ON condition
+	l, r  *c5tnode
+	es    []*c5tnode
+}
+
+var c5tInner = []string{"join", "inner join", "cross join"}
+var c5tOuter = []string{"left join", "right join", "left outer join"}
+
+func c5tLeaf(t string) *c5tnode        { return &c5tnode{kind: 0, table: t} }
+func c5tParen(es ...*c5tnode) *c5tnode { return &c5tnode{kind: 2, es: es} }
+
+// c5tJoin: a join of l and r with a random join keyword that is legal for the operands
+func c5tJoin(r *vh.Rng, l, rt *c5tnode) *c5tnode {
+	n := &c5tnode{kind: 1, l: l, r: rt, on: true}
+	switch {
+	case rt.kind == 1: // a join as right operand WITHOUT parentheses: only an outer join takes a table_reference there
+		n.join = c5tOuter[r.Intn(len(c5tOuter))]
+		if rt.join != "natural join" {
+			rt.on = true // `a left join b join c on P`: the parser gives the only ON to the inner join and fails
+		}
+	default:
+		switch r.Intn(8) {
+		case 0, 1, 2:
+			n.join = c5tOuter[r.Intn(len(c5tOuter))]
+		case 3:
+			n.join = "natural join"
+			n.on = false
+		case 4:
+			n.join = "straight_join"
+		default:
+			n.join = c5tInner[r.Intn(len(c5tInner))]
+			n.on = r.Intn(4) != 0
+		}
+	}
+	return n
+}
+
+func c5perm(r *vh.Rng, n int) []int {
+	p := make([]int, n)
+	for i := range p {
+		j := r.Intn(i + 1)
+		p[i] = p[j]
+		p[j] = i
+	}
+	return p
+}
+
+// tables the FROM tree shows to the table rule (left to right), tables read inside sub-select operands
+func (n *c5tnode) leaves(vis, nested *[]string, subs *int) {
+	switch n.kind {
+	case 0:
+		*vis = append(*vis, n.table)
+	case 1:
+		n.l.leaves(vis, nested, subs)
+		n.r.leaves(vis, nested, subs)
+	case 2:
+		for _, x := range n.es {
+			x.leaves(vis, nested, subs)
+		}
+	default:
+		*nested = append(*nested, n.table)
+		*subs++
+	}
+}
+
+func (n *c5tnode) first() string {
+	switch n.kind {
+	case 1:
+		return n.l.first()
+	case 2:
+		return n.es[0].first()
+	}
+	if n.alias != "" {
+		return n.alias
+	}
+	return n.table
+}
+
+func (n *c5tnode) shape() string {
+	switch n.kind {
+	case 0:
+		return n.table
+	case 1:
+		return "J(" + n.l.shape() + "," + n.r.shape() + ")"
+	case 2:
+		var xs []string
+		for _, x := range n.es {
+			xs = append(xs, x.shape())
+		}
+		return "P(" + strings.Join(xs, ",") + ")"
+	}
+	return "S"
+}
+
+// the same notation for what the REAL parser built
+func c5astShape(e sqlparser.TableExpr) string {
+	switch t := e.(type) {
+	case *sqlparser.AliasedTableExpr:
+		if _, ok := t.Expr.(*sqlparser.Subquery); ok {
+			return "S"
+		}
+		return sqlparser.String(t.Expr)
+	case *sqlparser.JoinTableExpr:
+		return "J(" + c5astShape(t.LeftExpr) + "," + c5astShape(t.RightExpr) + ")"
+	case *sqlparser.ParenTableExpr:
+		var xs []string
+		for _, x := range t.Exprs {
+			xs = append(xs, c5astShape(x))
+		}
+		return "P(" + strings.Join(xs, ",") + ")"
+	}
+	return "?"
+}
+
+func (n *c5tnode) emit(s *c5stmt) {
+	switch n.kind {
+	case 0:
+		s.add(id(n.table))
+		if n.alias != "" {
+			s.add(kw("as"), id(n.alias))
+		}
+	case 1:
+		n.l.emit(s)
+		s.add(kw(n.join))
+		n.r.emit(s)
+		if n.on {
+			s.add(kw("on"), id(n.l.first()+".a"), id("="), id(n.r.first()+".b"))
+		}
+	case 2:
+		s.add(id("("))
+		for i, x := range n.es {
+			if i > 0 {
+				s.add(id(","))
+			}
+			x.emit(s)
+		}
+		s.add(id(")"))
+	default:
+		s.add(id("("), kw("select"), id("a"), kw("from"), id(n.table), id(")"), kw("as"), id(n.alias))
+	}
+}
+
+// c5tShapes structured shapes + one random tree; A..E are distinct tables
+const c5tShapes = 21
+
+var c5tShapeNames = [c5tShapes]string{
+	"right-nested-join", "right-list", "left-nested-join", "left-list", "both-nested-joins", "both-lists",
+	"left-join-right-list", "left-list-right-join", "right-join-unparenthesised", "right-deep-joins", "right-deep-list-inner",
+	"right-deep-list-outer", "list-element-nested", "list-of-joins", "paren-top-left", "paren-top-right", "flat-left-assoc",
+	"single-parens", "double-parens-right", "right-nested-left-assoc", "random",
+}
+
+func c5tBuild(r *vh.Rng, shape int) (*c5tnode, string) {
+	p := c5perm(r, len(c5tables))
+	T := func(i int) *c5tnode {
+		n := c5tLeaf(c5tables[p[i]])
+		if r.Intn(5) == 0 {
+			n.alias = fmt.Sprintf("x%d", i)
+		}
+		return n
+	}
+	J := func(l, rt *c5tnode) *c5tnode { return c5tJoin(r, l, rt) }
+	P := c5tParen
+	A, B, C, D, E, F := T(0), T(1), T(2), T(3), T(4), T(5)
+	var n *c5tnode
+	switch shape {
+	case 0:
+		n = J(A, P(J(B, C)))
+	case 1:
+		n = J(A, P(B, C))
+	case 2:
+		n = J(P(J(A, B)), C)
+	case 3:
+		n = J(P(A, B), C)
+	case 4:
+		n = J(P(J(A, B)), P(J(C, D)))
+	case 5:
+		n = J(P(A, B), P(C, D))
+	case 6:
+		n = J(P(J(A, B)), P(C, D))
+	case 7:
+		n = J(P(A, B), P(J(C, D)))
+	case 8:
+		n = J(A, J(B, C)) // A LEFT JOIN B JOIN C ON .. ON ..
+	case 9:
+		n = J(A, P(J(B, P(J(C, D)))))
+	case 10:
+		n = J(A, P(J(P(B, C), D)))
+	case 11:
+		n = J(A, P(B, P(J(C, D))))
+	case 12:
+		n = P(A, P(J(B, P(C, D)))) // top-level list: A, (B JOIN (C, D))
+	case 13:
+		n = P(J(A, P(J(B, C))), J(P(D, E), F)) // top-level list of joins
+	case 14:
+		n = P(P(J(P(J(A, B)), C))) // ((A JOIN B) JOIN C) in parentheses
+	case 15:
+		n = P(P(J(A, P(B, C))))
+	case 16:
+		n = J(J(A, B), C)
+	case 17:
+		n = J(P(A), P(P(J(B, C))))
+	case 18:
+		n = J(A, P(P(B, C)))
+	case 19:
+		n = J(J(A, P(J(B, C))), D)
+	default:
+		n = c5tRandom(r, 3)
+		if n.kind != 2 || r.Bool() {
+			n = P(n) // the top node stands for the FROM list
+		}
+	}
+	if shape < 12 || shape >= 16 && shape < 20 {
+		n = P(n) // a FROM list of one element
+	}
+	return n, c5tShapeNames[shape]
+}
+
+// c5tRandom: random tree; tables may repeat, operands may be sub-selects
+func c5tRandom(r *vh.Rng, depth int) *c5tnode {
+	k := r.Intn(10)
+	if depth == 0 || k < 2 {
+		if r.Intn(8) == 0 {
+			return &c5tnode{kind: 3, table: c5tables[r.Intn(len(c5tables))], alias: fmt.Sprintf("s%d", r.Intn(100))}
+		}
+		n := c5tLeaf(c5tables[r.Intn(len(c5tables))])
+		if r.Intn(4) == 0 {
+			n.alias = fmt.Sprintf("y%d", r.Intn(100))
+		}
+		return n
+	}
+	if k < 7 {
+		l := c5tRandom(r, depth-1)
+		rt := c5tRandom(r, depth-1)
+		if l.kind == 1 && r.Intn(3) == 0 {
+			l = c5tParen(l)
+		}
+		if rt.kind == 1 && r.Intn(4) != 0 {
+			rt = c5tParen(rt)
+		}
+		return c5tJoin(r, l, rt)
+	}
+	var es []*c5tnode
+	for i, m := 0, 1+r.Intn(3); i < m; i++ {
+		es = append(es, c5tRandom(r, depth-1))
+	}
+	return c5tParen(es...)
+}
+
+// c5tStmt: SELECT over the FROM tree; `top` is a kind-2 node standing for the FROM list (no parentheses emitted)
+func c5tStmt(r *vh.Rng, top *c5tnode, name string) *c5stmt {
+	s := &c5stmt{whereAt: -1, parsable: true, kind: "select-tree"}
+	s.add(kw("select"), id(c5cols[r.Intn(len(c5cols))]), kw("from"))
+	var shapes []string
+	for i, x := range top.es {
+		if i > 0 {
+			s.add(id(","))
+		}
+		x.emit(s)
+		shapes = append(shapes, x.shape())
+	}
+	s.shape = name + ":" + strings.Join(shapes, ",")
+	subs := 0
+	top.leaves(&s.visible, &s.nested, &subs)
+	s.subOp = subs > 0
+	if r.Intn(3) == 0 {
+		s.where(r, c5cols[r.Intn(len(c5cols))])
+	}
+	return s
+}
+
 // ---------- configurations ----------
 
 type c5handler struct {
@@ -298,44 +587,78 @@ func cb(b bool) string {
 
 var c5parser = sqlparser.New(sqlparser.ModeStrict)
 
-// chainTerm computes, with the REAL matchers, what every handler of the chain sees of the query.
-func chainTerm(c *acracensor.AcraCensor, raw string) (string, bool) {
+// c5teval is one evaluation of the table rule (one allow/deny handler with a `tables:` list on one statement)
+type c5teval struct {
+	names    []string // the handler's table list, sorted
+	set      map[string]bool
+	one, all bool // what the REAL common.CheckTableNamesMatch answered
+}
+
+func c5setTerm(set map[string]bool) (string, []string) {
+	var names []string
+	for t := range set {
+		names = append(names, t)
+	}
+	sort.Strings(names)
+	var hs []string
+	for _, t := range names {
+		hs = append(hs, vh.H([]byte(t)))
+	}
+	return "[" + strings.Join(hs, "; ") + "]", names
+}
+
+// chainTerm describes the configured chain and the statement for the model: exact-query and pattern
+// results are computed with the REAL matchers (inputs of the model); the TABLE rule is NOT an input: the
+// term carries every handler's table list and the FROM tree / INSERT target of the parsed statement and the
+// model evaluates the rule itself (OpCensor).  Every table-rule evaluation the chain can make is also
+// returned so that it is replayed (OpTables) and judged on its own.
+func chainTerm(c *acracensor.AcraCensor, raw string) (string, bool, sqlparser.Statement, []c5teval) {
 	norm, _, parsed, err := c5parser.HandleRawSQLQuery(raw)
 	isParsed := err == nil
 	var hs []string
+	var evals []c5teval
 	for _, h := range c.VerifHandlers() {
 		switch x := h.(type) {
 		case *handlers.AllowHandler, *handlers.DenyHandler:
 			var q, t map[string]bool
 			var p []sqlparser.Statement
-			name := "HA"
+			name := "SA"
 			if a, ok := x.(*handlers.AllowHandler); ok {
 				q, t, p = a.VerifRules()
 			} else {
 				q, t, p = x.(*handlers.DenyHandler).VerifRules()
-				name = "HD"
+				name = "SD"
 			}
-			mq, one, all, mp := false, false, false, false
+			mq, mp := false, false
+			setTerm, names := c5setTerm(t)
 			if isParsed {
 				mq = common.CheckExactQueriesMatch(norm, q)
-				one, all = common.CheckTableNamesMatch(parsed, t)
 				mp = common.CheckPatternsMatching(p, parsed)
+				if len(t) != 0 {
+					ev := c5teval{names: names, set: t}
+					ev.one, ev.all = common.CheckTableNamesMatch(parsed, t)
+					evals = append(evals, ev)
+				}
 			}
-			hs = append(hs, fmt.Sprintf("%s %s %s %s %s %s %s %s", name, cb(len(q) != 0), cb(mq), cb(len(t) != 0), cb(one), cb(all), cb(len(p) != 0), cb(mp)))
+			hs = append(hs, fmt.Sprintf("%s %s %s %s %s %s", name, cb(len(q) != 0), cb(mq), setTerm, cb(len(p) != 0), cb(mp)))
 		case *handlers.AllowAllHandler:
-			hs = append(hs, "HAA")
+			hs = append(hs, "SAA")
 		case *handlers.DenyAllHandler:
-			hs = append(hs, "HDA")
+			hs = append(hs, "SDA")
 		case *handlers.QueryIgnoreHandler:
 			ig := x.VerifQueries()
-			hs = append(hs, "HI "+cb(ig[sqlparser.String(parsed)] || ig[raw]))
+			hs = append(hs, "SI "+cb(ig[sqlparser.String(parsed)] || ig[raw]))
 		case *handlers.QueryCaptureHandler:
-			hs = append(hs, "HC")
+			hs = append(hs, "SC")
 		default:
-			hs = append(hs, "HC")
+			hs = append(hs, "SC")
 		}
 	}
-	return fmt.Sprintf("(OpChain %s %s %s [%s])", cb(c.VerifIgnoreParseError()), cb(c.VerifHasUnparsedWriter()), cb(isParsed), strings.Join(hs, "; ")), isParsed
+	st := "STOther"
+	if isParsed {
+		st = stmtTablesTerm(parsed)
+	}
+	return fmt.Sprintf("(OpCensor %s %s %s %s [%s])", cb(c.VerifIgnoreParseError()), cb(c.VerifHasUnparsedWriter()), cb(isParsed), st, strings.Join(hs, "; ")), isParsed, parsed, evals
 }
 
 // ---------- table expressions -> Coq ----------
@@ -383,24 +706,85 @@ func stmtTablesTerm(p sqlparser.Statement) string {
 // ---------- the domain ----------
 
 type c5run struct {
-	rep *vh.Report
-	r   *vh.Rng
+	rep   *vh.Report
+	r     *vh.Rng
+	seenT map[string]bool // table-rule evaluations already recorded for the model: (table set, FROM tree, answer)
 }
 
 // ask runs the real censor on raw, records the case for the model and returns the verdict code.
 func (e *c5run) ask(label string, c *acracensor.AcraCensor, raw string) byte {
-	term, _ := chainTerm(c, raw)
+	return e.askS(label, c, raw, nil)
+}
+
+// askS: as ask; every evaluation of the table rule the chain makes on the statement is replayed on the model
+// (OpTables) and, when the generator's description s of the statement is given, judged by the table-rule
+// oracle (expectation from the generator's own list of the tables in the FROM tree).
+func (e *c5run) askS(label string, c *acracensor.AcraCensor, raw string, s *c5stmt) byte {
+	term, isParsed, parsed, evals := chainTerm(c, raw)
 	var code byte
 	o := vh.Guard(func() vh.Outcome {
 		code = verdictCode(c.HandleQuery(raw))
 		return vh.Ok([]byte{code})
 	})
 	e.rep.Add(label+" q="+raw, term, o)
+	if isParsed {
+		for _, ev := range evals {
+			setTerm, _ := c5setTerm(ev.set)
+			tterm := fmt.Sprintf("(OpTables %s %s)", setTerm, stmtTablesTerm(parsed))
+			e.rep.Count("table-rule-evals")
+			// the same rule on the same tree with the same answer (formatting variants, the deny and the allow
+			// configuration of one table set) is the same computation on the model: recorded once
+			if key := tterm + cb(ev.one) + cb(ev.all); !e.seenT[key] {
+				e.seenT[key] = true
+				e.rep.Add(fmt.Sprintf("%s table-rule set=%v q=%s", label, ev.names, raw), tterm, vh.Ok(fl(ev.one), fl(ev.all)))
+			} else {
+				e.rep.Count("table-rule-evals-same-term-not-repeated")
+			}
+			if s != nil && s.parsable {
+				e.judgeTables(s, raw, ev.set, ev.names, ev.one, ev.all)
+			}
+		}
+	}
 	if o.Kind == "panic" {
 		e.rep.Violate("censor-panic", "HandleQuery panicked: "+o.Msg, label+" q="+raw)
 		return 0xfe
 	}
 	return code
+}
+
+// c5tableExpect: what the table rule must answer for statement s and table set `set`, from the generator's own
+// knowledge of the statement (ok=false: not judged).
+func c5tableExpect(s *c5stmt, set map[string]bool) (wantOne, wantAll, ok bool) {
+	wantOne, wantAll = false, len(s.visible) > 0
+	for _, t := range s.visible {
+		if set[t] {
+			wantOne = true
+		} else {
+			wantAll = false
+		}
+	}
+	if s.kind == "update" || s.kind == "delete" {
+		wantOne, wantAll = false, false
+	}
+	if s.kind == "select-subfrom" || s.subOp {
+		wantAll = false // the sub-select itself is never a listed table
+	}
+	return wantOne, wantAll, s.kind != "union"
+}
+
+func (e *c5run) judgeTables(s *c5stmt, raw string, set map[string]bool, names []string, one, all bool) {
+	wantOne, wantAll, ok := c5tableExpect(s, set)
+	if !ok {
+		return
+	}
+	e.rep.OracleChecks++
+	if len(s.visible) > 1 && wantOne && !wantAll {
+		e.rep.Count("table-rule-mixed-membership")
+	}
+	if one != wantOne || all != wantAll {
+		e.rep.Violate("table-rule", fmt.Sprintf("CheckTableNamesMatch(%q, %v) = (atLeastOne=%v, all=%v), expected (%v,%v): the FROM tree %s shows the tables %v",
+			raw, names, one, all, wantOne, wantAll, s.shape, s.visible), "tables: "+strings.Join(names, ",")+"\nstatement: "+raw)
+	}
 }
 
 func pickOpts(r *vh.Rng, k int) []int {
@@ -436,7 +820,7 @@ func has(xs []string, x string) bool {
 }
 
 func runC05(rep *vh.Report, r *vh.Rng, n int, thorough bool) {
-	e := &c5run{rep, r}
+	e := &c5run{rep, r, map[string]bool{}}
 	nVar := 3
 	if thorough {
 		nVar = 6
@@ -445,9 +829,9 @@ func runC05(rep *vh.Report, r *vh.Rng, n int, thorough bool) {
 		// a pool of statements for this scenario
 		var pool []*c5stmt
 		for i := 0; i < 6; i++ {
-			k := r.Intn(13)
-			if thorough && sc < 13 {
-				k = (sc + i) % 13
+			k := r.Intn(14)
+			if thorough && sc < 14 {
+				k = (sc + i) % 14
 			}
 			st := genStmt(r, k)
 			_, _, _, perr := c5parser.HandleRawSQLQuery(st.render(0))
@@ -457,15 +841,17 @@ func runC05(rep *vh.Report, r *vh.Rng, n int, thorough bool) {
 			}
 			pool = append(pool, st)
 		}
-		switch sc % 4 {
+		switch sc % 5 {
 		case 0:
 			e.randomChain(sc, pool, nVar)
 		case 1:
 			e.denyFromStatement(sc, pool, nVar)
 		case 2:
 			e.allowThenDenyAll(sc, pool, nVar)
-		default:
+		case 3:
 			e.tablesAndUnparsed(sc, pool, nVar)
+		default:
+			e.tableTrees(sc, thorough)
 		}
 	}
 }
@@ -473,9 +859,9 @@ func runC05(rep *vh.Report, r *vh.Rng, n int, thorough bool) {
 // variants asks the verdict for formatting variants of one statement and checks they agree.
 func (e *c5run) variants(label string, c *acracensor.AcraCensor, y string, s *c5stmt, nVar int) byte {
 	opts := pickOpts(e.r, nVar)
-	base := e.ask(label+" v0", c, s.render(0))
+	base := e.askS(label+" v0", c, s.render(0), s)
 	for _, o := range opts[1:] {
-		v := e.ask(fmt.Sprintf("%s v%d", label, o), c, s.render(o))
+		v := e.askS(fmt.Sprintf("%s v%d", label, o), c, s.render(o), s)
 		e.rep.OracleChecks++
 		e.rep.Count(fmt.Sprintf("variant-bits:%06b", o))
 		if (v == 0) != (base == 0) || (s.parsable && v != base) {
@@ -684,7 +1070,7 @@ func (e *c5run) allowThenDenyAll(sc int, pool []*c5stmt, nVar int) {
 	v := e.variants(fmt.Sprintf("sc%d allow-admitted", sc), c, y, adm, nVar)
 	e.rep.OracleChecks++
 	want := true
-	if mode == 2 && (len(adm.visible) == 0 || adm.kind == "update" || adm.kind == "delete" || adm.kind == "union" || adm.kind == "select-subfrom") {
+	if mode == 2 && (len(adm.visible) == 0 || adm.kind == "update" || adm.kind == "delete" || adm.kind == "union" || adm.kind == "select-subfrom" || adm.subOp) {
 		want = false // table rules do not look at these statement kinds; a sub-select is never a listed table
 	}
 	if want && v != 0 {
@@ -703,7 +1089,7 @@ func (e *c5run) allowThenDenyAll(sc int, pool []*c5stmt, nVar int) {
 		case 1:
 			admitted = s.parsable && sameShape(s, adm)
 		default:
-			admitted = s.parsable && len(s.visible) > 0 && (s.kind != "update" && s.kind != "delete" && s.kind != "union" && s.kind != "select-subfrom")
+			admitted = s.parsable && len(s.visible) > 0 && !s.subOp && (s.kind != "update" && s.kind != "delete" && s.kind != "union" && s.kind != "select-subfrom")
 			for _, t := range s.visible {
 				if !has(adm.visible, t) {
 					admitted = false
@@ -713,6 +1099,151 @@ func (e *c5run) allowThenDenyAll(sc int, pool []*c5stmt, nVar int) {
 		e.rep.OracleChecks++
 		if !admitted && got == 0 {
 			e.rep.Violate("denyall-bypassed", "statement not admitted by the allow rule in front of denyall was allowed: "+s.render(0), "config:\n"+y+"statement: "+s.render(0))
+		}
+	}
+}
+
+// tableTrees: FROM trees with nested / parenthesised joins and table lists on either side of a join, against
+// table rules whose set holds SOME of the tree's tables (every single table, every set lacking a single table,
+// the whole set, a disjoint set, random sets): `deny tables` must reject iff at least one table of the tree is
+// listed, `allow tables` in front of denyall must admit iff all of them are.  Every evaluation of the table
+// rule is replayed on the model (OpTables, OpCensor) and judged from the generator's own list of the tables.
+func (e *c5run) tableTrees(sc int, thorough bool) {
+	r := e.r
+	// quick: 4 trees per scenario, the shapes rotate (all of them within 6 scenarios); thorough: the first
+	// scenario additionally walks through every shape with EVERY non-empty subset of the tree's tables
+	nTrees, exhaustive := 4, thorough && sc/5 == 0
+	if exhaustive {
+		nTrees = c5tShapes
+	}
+	for k := 0; k < nTrees; k++ {
+		shape := ((sc/5)*4 + k) % c5tShapes
+		top, name := c5tBuild(r, shape)
+		s := c5tStmt(r, top, name)
+		e.rep.Count("tree:" + name)
+		_, _, parsed, perr := c5parser.HandleRawSQLQuery(s.render(0))
+		if perr != nil {
+			e.rep.Count("generator-parsable-mismatch:tree:" + name)
+			continue
+		}
+		if sel, ok := parsed.(*sqlparser.Select); ok {
+			var got []string
+			for _, x := range sel.From {
+				got = append(got, c5astShape(x))
+			}
+			if name+":"+strings.Join(got, ",") != s.shape {
+				e.rep.Count("tree-shape-differs:" + name)
+			}
+		}
+		// the distinct tables of the tree
+		var ts []string
+		for _, t := range s.visible {
+			if !has(ts, t) {
+				ts = append(ts, t)
+			}
+		}
+		var outside []string
+		for _, t := range c5tables {
+			if !has(ts, t) {
+				outside = append(outside, t)
+			}
+		}
+		outside = append(outside, "zz_other")
+		// table sets: bit 1 = asked under a deny rule, bit 2 = asked under an allow rule in front of denyall
+		type c5tset struct {
+			tables []string
+			rules  int
+		}
+		var sets []c5tset
+		if exhaustive && len(ts) <= 6 {
+			for m := 1; m < 1<<len(ts); m++ {
+				var x []string
+				for i, t := range ts {
+					if m&(1<<i) != 0 {
+						x = append(x, t)
+					}
+				}
+				sets = append(sets, c5tset{x, 3})
+			}
+		} else {
+			for i := range ts {
+				sets = append(sets, c5tset{[]string{ts[i]}, 1}) // exactly one table of the tree is denied
+				var x []string
+				for j, t := range ts {
+					if j != i {
+						x = append(x, t)
+					}
+				}
+				if len(x) > 0 {
+					sets = append(sets, c5tset{x, 2}) // exactly one table of the tree is not allow-listed
+				}
+			}
+			sets = append(sets, c5tset{append([]string{}, ts...), 3})
+		}
+		sets = append(sets, c5tset{[]string{outside[r.Intn(len(outside))]}, 3})
+		{ // a random subset, padded with tables outside the tree
+			x := subset(r, ts, 2)
+			x = append(x, subset(r, outside, 3)...)
+			if len(x) > 0 {
+				sets = append(sets, c5tset{x, 3})
+			}
+		}
+		for si, cs := range sets {
+			set := cs.tables
+			in := map[string]bool{}
+			for _, t := range set {
+				in[t] = true
+			}
+			wantOne, wantAll, _ := c5tableExpect(s, in)
+			switch {
+			case wantAll:
+				e.rep.Count("tree-membership:all")
+			case wantOne:
+				e.rep.Count("tree-membership:mixed")
+			default:
+				e.rep.Count("tree-membership:none")
+			}
+			// deny rule; handlers without an opinion around it
+			deny := []c5handler{{kind: "deny", tables: set}}
+			switch r.Intn(4) {
+			case 0:
+				deny = append(deny, c5handler{kind: "allowall"})
+			case 1:
+				deny = append([]c5handler{{kind: "query_ignore", queries: []string{"select 1"}}, {kind: "allow", queries: []string{"select 2"}}}, deny...)
+			}
+			y := c5yaml(false, deny)
+			if c, err := c5load(y); err != nil {
+				e.rep.Count("config-rejected")
+			} else if cs.rules&1 != 0 {
+				raw := s.render(r.Intn(64))
+				v := e.askS(fmt.Sprintf("sc%d tree%d set%d deny-tables", sc, k, si), c, raw, s)
+				e.rep.OracleChecks++
+				if wantOne && v == 0 {
+					e.rep.Violate("deny-table-missed", fmt.Sprintf("statement %q reads table(s) of the deny list %v in its FROM tree %s and was allowed", raw, set, s.shape), "config:\n"+y+"statement: "+raw)
+				}
+				if !wantOne && v != 0 {
+					e.rep.Violate("deny-table-overmatch", fmt.Sprintf("statement %q has none of the denied tables %v in its FROM tree %s and was rejected (%d)", raw, set, s.shape, v), "config:\n"+y+"statement: "+raw)
+				}
+			}
+			// allow rule in front of denyall
+			allow := []c5handler{{kind: "allow", tables: set}, {kind: "denyall"}}
+			if r.Intn(4) == 0 {
+				allow = append([]c5handler{{kind: "deny", queries: []string{"select 3"}}}, allow...)
+			}
+			y = c5yaml(false, allow)
+			if c, err := c5load(y); err != nil {
+				e.rep.Count("config-rejected")
+			} else if cs.rules&2 != 0 {
+				raw := s.render(r.Intn(64))
+				v := e.askS(fmt.Sprintf("sc%d tree%d set%d allow-tables-denyall", sc, k, si), c, raw, s)
+				e.rep.OracleChecks++
+				if !wantAll && v == 0 {
+					e.rep.Violate("denyall-bypassed", fmt.Sprintf("statement %q reads a table outside the allow list %v (FROM tree %s shows %v) in front of denyall and was allowed", raw, set, s.shape, s.visible), "config:\n"+y+"statement: "+raw)
+				}
+				if wantAll && v != 0 {
+					e.rep.Violate("allow-missed", fmt.Sprintf("statement %q reads only tables of the allow list %v and was rejected (%d)", raw, set, v), "config:\n"+y+"statement: "+raw)
+				}
+			}
 		}
 	}
 }
@@ -756,41 +1287,16 @@ func (e *c5run) tablesAndUnparsed(sc int, pool []*c5stmt, nVar int) {
 						set[t] = true
 					}
 				}
-				var names []string
-				for t := range set {
-					names = append(names, t)
-				}
-				sort.Strings(names)
-				var hs []string
-				for _, t := range names {
-					hs = append(hs, vh.H([]byte(t)))
-				}
+				setTerm, names := c5setTerm(set)
 				var one, all bool
 				o := vh.Guard(func() vh.Outcome {
 					one, all = common.CheckTableNamesMatch(parsed, set)
 					return vh.Ok(fl(one), fl(all))
 				})
 				e.rep.Add(fmt.Sprintf("sc%d tables s%d set=%v q=%s", sc, i, names, raw),
-					fmt.Sprintf("(OpTables [%s] %s)", strings.Join(hs, "; "), stmtTablesTerm(parsed)), o)
+					fmt.Sprintf("(OpTables %s %s)", setTerm, stmtTablesTerm(parsed)), o)
 				// oracle from the generator's own knowledge of the statement
-				e.rep.OracleChecks++
-				wantOne, wantAll := false, len(s.visible) > 0
-				for _, t := range s.visible {
-					if set[t] {
-						wantOne = true
-					} else {
-						wantAll = false
-					}
-				}
-				if s.kind == "update" || s.kind == "delete" {
-					wantOne, wantAll = false, false
-				}
-				if s.kind == "select-subfrom" {
-					wantAll = false // the sub-select itself is never a listed table
-				}
-				if s.kind != "union" && (one != wantOne || all != wantAll) {
-					e.rep.Violate("table-rule", fmt.Sprintf("CheckTableNamesMatch(%q, %v) = (%v,%v), expected (%v,%v)", raw, names, one, all, wantOne, wantAll), raw)
-				}
+				e.judgeTables(s, raw, set, names, one, all)
 			}
 		}
 		if !s.parsable {
